@@ -44,13 +44,30 @@ def child_env(rng, hashseed, perturb=True):
     return env
 
 
+def _affinity_fn(rng):
+    """Restrict the child to 1 or 2 CPUs, or leave it alone."""
+    try:
+        allowed = sorted(os.sched_getaffinity(0))
+    except AttributeError:
+        return None
+    k = rng.choice([1, 2, None])
+    if k is None or len(allowed) <= k:
+        return None
+    cpus = set(rng.sample(allowed, k))
+    S.fired('cpu_affinity_restricted')
+
+    def fn():
+        os.sched_setaffinity(0, cpus)
+    return fn
+
+
 def exec_sim(repo, argv, side, hashseed, rng, cwd, npulses=10, disk=None, pyflags=()):
     spec = dict(repo=repo, verif=VERIF, side=side, argv=argv, disk=disk or {}, npulses=npulses)
     if pyflags:
         S.fired('interpreter_flags')
     p = subprocess.run([PY] + list(pyflags) + [os.path.join(HERE, 'launcher.py')], input=json.dumps(spec),
                        capture_output=True, text=True, env=child_env(rng, hashseed),
-                       cwd=cwd, timeout=300)
+                       cwd=cwd, timeout=300, preexec_fn=_affinity_fn(rng))
     S.fired('hashseed_exec')
     if p.returncode != 0:
         raise RuntimeError('launcher failed rc=%s: %s' % (p.returncode, p.stderr[-2000:]))
@@ -62,7 +79,7 @@ class _Done:
         self.returncode, self.stdout, self.stderr = returncode, stdout, stderr
 
 
-def _run_on_tty(cmd, env, cwd, out_tty=True, err_tty=False, in_tty=False):
+def _run_on_tty(cmd, env, cwd, out_tty=True, err_tty=False, in_tty=False, preexec=None):
     """Run with stdout and/or stderr (and/or stdin) connected to
     pseudo-terminals (isatty() is true for the program); output
     post-processing of the ttys is switched off so the bytes arrive
@@ -99,7 +116,7 @@ def _run_on_tty(cmd, env, cwd, out_tty=True, err_tty=False, in_tty=False):
     else:
         imaster = None
         kw['stdin'] = subprocess.DEVNULL
-    p = subprocess.Popen(cmd, env=env, cwd=cwd, **kw)
+    p = subprocess.Popen(cmd, env=env, cwd=cwd, preexec_fn=preexec, **kw)
     for fd in close_after:
         os.close(fd)
     chunks = {'stdout': [], 'stderr': []}
@@ -151,13 +168,13 @@ def exec_real(repo, argv, hashseed, rng, scratch, tty=False, optimize=False, str
             env['TERM'] = 'xterm-256color'
             st = streams or dict(out_tty=True)
             try:
-                p = _run_on_tty([PY, '-m', 'mininec.mininec'] + list(argv), env, d, **st)
+                p = _run_on_tty([PY, '-m', 'mininec.mininec'] + list(argv), env, d, preexec=_affinity_fn(rng), **st)
             except OSError:
                 S.fired('tty_unavailable')      # no pseudo-terminals in this sandbox
                 p = None
         if p is None:
             p = subprocess.run([PY, '-m', 'mininec.mininec'] + list(argv), capture_output=True,
-                               text=True, env=env, cwd=d, timeout=300)
+                               text=True, env=env, cwd=d, timeout=300, preexec_fn=_affinity_fn(rng))
         files = {}
         for flag, path in W.out_paths(argv):
             fp = os.path.join(d, path)
